@@ -411,6 +411,34 @@ func runC14(c *fw.Ctx) {
 			}
 		})
 	}
+	// (2a) deep values: the same nesting written with lists in one value and vectors in the other (equal), and with one
+	// differing leaf (unequal), at depths up to 300
+	for di, depth := range []int{10, 40, 63, 64, 65, 70, 100, 150, 300} {
+		if !c.Mine(di) {
+			continue
+		}
+		mk := func(vec bool, leaf *canon.Node) *canon.Node {
+			n := leaf
+			for k := 0; k < depth; k++ {
+				if vec {
+					n = canon.Ve(canon.In(k), n)
+				} else {
+					n = canon.Li(canon.In(k), n)
+				}
+			}
+			return n
+		}
+		vals := []*canon.Node{mk(false, canon.Sy("leaf")), mk(true, canon.Sy("leaf")), mk(true, canon.Sy("other")), mk(false, canon.Ma(map[string]*canon.Node{"k": canon.Li(canon.In(1))})), mk(true, canon.Ma(map[string]*canon.Node{"k": canon.Ve(canon.In(1))}))}
+		c.Case(fmt.Sprintf("deep-%d", depth), fmt.Sprintf("nesting depth %d, list- vs vector-built", depth), func() {
+			for x := range vals {
+				for y := range vals {
+					c14Judge(c, env, vals[x], vals[y], canon.ToGo(vals[x]), canon.ToGo(vals[y]), fmt.Sprintf("deep-%d", depth))
+					c.Count("pairs", 1)
+					c.Count("deep_pairs", 1)
+				}
+			}
+		})
+	}
 	// (2b) values sharing storage with a common parent
 	ra := c.Rand("aliasing")
 	for i := 0; i < c.PerShard(c.Pick(8000, 200000)); i++ {
